@@ -81,6 +81,26 @@ void verif_observe_f64(double v)
     std::memcpy(&b, &v, 8);
     std::printf("obs %" PRIx64 "\n", b);
 }
+int verif_approx_eq(double a, double b, double scale)
+{
+    double s = scale < 0 ? -scale : scale;
+    if (!(s > 1))
+        s = 1;
+    double d = a - b;
+    if (d < 0)
+        d = -d;
+    return (a == b) || d <= 1e-7 * s;
+}
+int verif_close(double a, double b, double scale)
+{
+    double s = scale < 0 ? -scale : scale;
+    if (!(s > 1))
+        s = 1;
+    double d = a - b;
+    if (d < 0)
+        d = -d;
+    return (a == b) || d <= 0.9e-7 * s;
+}
 int verif_known_region(char const* id, int cond)
 {
     std::printf("known %s %x\n", id, cond != 0);
